@@ -32,6 +32,7 @@ type sentReq struct {
 func scenarioC02(r *Run) {
 	r.Conf = DefaultBESSConf()
 	r.Conf.EnableHBTimer = r.Ch.Choose(3, "hb") != 0
+	r.Conf.ReadTimeout = 3600 // quiet connections stay: the read timeout is not this property's trigger
 	// short heartbeat intervals: the heartbeat monitor sends while responses are being sent
 	r.Conf.HeartBeatInterval = []string{"5s", "5s", "20ms", "8ms"}[r.Ch.Choose(4, "hbi")]
 	r.DrawStrategy()
@@ -69,6 +70,7 @@ func scenarioC02(r *Run) {
 	hasConn := map[*Peer]bool{} // the agent holds a connected socket for this peer
 	stale := map[*Peer][]uint64{} // UP F-SEIDs handed out by an incarnation of the agent that was killed since
 	restarted := false
+	outageDone := false
 	// send performs one request, records it and returns the response.
 	send := func(p *Peer, m message.Message, kind string, copies int) *RxMsg {
 		key := fmt.Sprintf("%d/%d/%d", p.Idx, m.MessageType(), m.Sequence())
@@ -176,6 +178,63 @@ func scenarioC02(r *Run) {
 			if s.Peer == p {
 				sessions = append(sessions, s)
 			}
+		}
+		// once per run (heartbeat monitor on): the peer sits on the agent's Heartbeat
+		// Requests until the agent has given up, sends heartbeats of its own meanwhile,
+		// and answers the agent's old request afterwards (a delayed datagram)
+		if !outageDone && r.Conf.EnableHBTimer && r.Conf.HeartBeatInterval != "5s" && p.Associated && hasConn[p] && r.Ch.Choose(16, "heartbeat-outage") == 1 {
+			outageDone = true
+			var held []uint32
+			p.HBFilter = func(m *RxMsg) bool {
+				held = append(held, m.Msg.Sequence())
+				return false
+			}
+			giveUp := time.Duration(r.Conf.MaxReqRetries+1)*2*time.Second + 3*time.Second // resp_timeout 2 s
+			for t := time.Duration(0); t < giveUp && r.AgentAlive(); t += time.Second {
+				r.Sim.RunFor(time.Second)
+				cnt := map[uint32]int{}
+				last := false
+				for _, sq := range held {
+					cnt[sq]++
+					last = last || cnt[sq] > int(r.Conf.MaxReqRetries)
+				}
+				if last {
+					continue // final transmission seen: the connection is about to go, a request now may legitimately be lost
+				}
+				hb := message.NewHeartbeatRequest(p.NextSeq(), ie.NewRecoveryTimeStamp(p.TS), nil)
+				setSeq(hb, seqFor(p))
+				send(p, hb, "HeartbeatRequest", 1)
+			}
+			p.HBFilter = nil
+			r.Fault("agent-heartbeats-unanswered-until-give-up")
+			r.Skel("hb-outage")
+			seen := map[uint32]bool{}
+			for _, sq := range held {
+				if !seen[sq] {
+					seen[sq] = true
+					p.SendMsg(message.NewHeartbeatResponse(sq, ie.NewRecoveryTimeStamp(p.TS)))
+				}
+			}
+			r.Op("peer%d left %d heartbeat transmission(s) of the agent unanswered for %v (sending its own), then answered them late", p.Idx, len(held), giveUp)
+			r.Sim.RunFor(50 * time.Millisecond)
+			// every transmission of one request went unanswered: the agent has dropped
+			// the association (anything else: the model cannot tell, the run ends here)
+			cnt := map[uint32]int{}
+			most := 0
+			for _, sq := range held {
+				cnt[sq]++
+				if cnt[sq] > most {
+					most = cnt[sq]
+				}
+			}
+			if most < int(r.Conf.MaxReqRetries)+1 {
+				r.Inconclusive++
+				return
+			}
+			p.Associated = false
+			p.Sessions = map[uint64]*CPSession{}
+			hasConn[p] = false
+			continue
 		}
 		kind := r.Ch.Choose(11, "kind")
 		switch kind {
